@@ -153,10 +153,11 @@ const (
 	c18BPushBad           // ... x
 	c18BPushTwo           // ... two values (5 and 7)
 	c18BClose             // connection closed before any response header
-	c18NB
+	c18NB                 // size of the C18 alphabet; the behaviours below are used by the C19 legs only
+	c18BOKPushNeg         // like OK, but the OK trailers carry grpc-retry-pushback-ms: -1 (still a success)
 )
 
-var c18BNames = []string{"ok", "unavail", "internal", "hdr+unavail", "msg+unavail", "refused", "goaway", "push0", "push2000", "push-1", "pushx", "push2v", "close"}
+var c18BNames = []string{"ok", "unavail", "internal", "hdr+unavail", "msg+unavail", "refused", "goaway", "push0", "push2000", "push-1", "pushx", "push2v", "close", "(nb)", "ok+push-1"}
 
 // c18Backoff is one retry-policy backoff menu entry; Mult = MultNum/MultDen.
 type c18Backoff struct {
@@ -179,12 +180,17 @@ type c18Cfg struct {
 	ChanMax      int  `json:"chanmax"`  // grpc.WithMaxCallAttempts (0: not set, channel default 5)
 	DisableRetry bool `json:"noretry"`  // grpc.WithDisableRetry
 	Buf          int  `json:"buf"`      // grpc.MaxRetryRPCBufferSize (bytes)
-	Throttle     int  `json:"throttle"` // retryThrottling.maxTokens with tokenRatio 1 (0: no throttling)
+	Throttle     int  `json:"throttle"` // retryThrottling.maxTokens (0: no throttling)
+	Ratio        string `json:"ratio,omitempty"` // retryThrottling.tokenRatio as a decimal literal ("" = 1)
 	Backoff      int  `json:"backoff"`  // index into c18Backoffs
 }
 
 func (c c18Cfg) String() string {
-	return fmt.Sprintf("max%d/chan%d/noretry=%v/buf%d/thr%d/bo%d", c.MaxAttempts, c.ChanMax, c.DisableRetry, c.Buf, c.Throttle, c.Backoff)
+	thr := fmt.Sprint(c.Throttle)
+	if c.Ratio != "" {
+		thr += "x" + c.Ratio
+	}
+	return fmt.Sprintf("max%d/chan%d/noretry=%v/buf%d/thr%s/bo%d", c.MaxAttempts, c.ChanMax, c.DisableRetry, c.Buf, thr, c.Backoff)
 }
 
 // effMax is the statement's "effective maximum": policy value capped by the channel limit.
@@ -194,6 +200,13 @@ func (c c18Cfg) effMax() int {
 		lim = c.ChanMax
 	}
 	return min(c.MaxAttempts, lim)
+}
+
+func (c c18Cfg) ratio() string {
+	if c.Ratio == "" {
+		return "1"
+	}
+	return c.Ratio
 }
 
 func c18DurJSON(d time.Duration) string {
@@ -206,7 +219,7 @@ func (c c18Cfg) serviceConfig() string {
 	sc := fmt.Sprintf(`{"methodConfig":[{"name":[{"service":"s"}],"retryPolicy":{"maxAttempts":%d,"initialBackoff":%q,"maxBackoff":%q,"backoffMultiplier":%s,"retryableStatusCodes":["UNAVAILABLE"]}}]`,
 		c.MaxAttempts, c18DurJSON(bo.Init), c18DurJSON(bo.Max), mult)
 	if c.Throttle > 0 {
-		sc += fmt.Sprintf(`,"retryThrottling":{"maxTokens":%d,"tokenRatio":1}`, c.Throttle)
+		sc += fmt.Sprintf(`,"retryThrottling":{"maxTokens":%d,"tokenRatio":%s}`, c.Throttle, c.ratio())
 	}
 	return sc + "}"
 }
@@ -451,6 +464,10 @@ func (a *c18Attempt) act(b int) {
 		p.WriteHeaders(sid, c18RespHdr, false)
 		p.WriteData(sid, false, wire.GrpcMsg(false, []byte("reply")))
 		p.WriteHeaders(sid, [][2]string{{"grpc-status", "0"}}, true)
+	case c18BOKPushNeg:
+		p.WriteHeaders(sid, c18RespHdr, false)
+		p.WriteData(sid, false, wire.GrpcMsg(false, []byte("reply")))
+		p.WriteHeaders(sid, [][2]string{{"grpc-status", "0"}, {"grpc-retry-pushback-ms", "-1"}}, true)
 	case c18BUnavail:
 		trailersOnly(codes.Unavailable)
 	case c18BInternal:
@@ -862,7 +879,7 @@ func c18NewModel(cfg c18Cfg) *c18Model {
 	if cfg.Throttle > 0 && !cfg.DisableRetry {
 		m.maxTokens = big.NewRat(int64(cfg.Throttle), 1)
 		m.tokens = new(big.Rat).Set(m.maxTokens)
-		m.ratio = big.NewRat(1, 1)
+		m.ratio, _ = new(big.Rat).SetString(cfg.ratio())
 	}
 	return m
 }
@@ -935,7 +952,7 @@ func (m *c18Model) after(b int, exceeded bool) []c18Next {
 		return []c18Next{{Kind: "none", Why: why, apply: apply}}
 	}
 	switch b {
-	case c18BOK:
+	case c18BOK, c18BOKPushNeg:
 		return none("success", m.successToken)
 	case c18BHdrUnavail, c18BMsgUnavail:
 		// response headers (and a message) were received: committed
@@ -1027,6 +1044,7 @@ type c18Judgement struct {
 	Engine     []string
 	Decisions  []string // per RPC: kinds of the decisions taken
 	Timings    []c18Timing
+	Tokens     []string // reference token count after each RPC ("" without throttling)
 	Retries    int // number of retry attempts observed
 	Failures   int // number of failed attempts (decisions exercised)
 	MaxReached int // attempts consumed in the longest RPC
@@ -1068,7 +1086,7 @@ func c18Judge(c c18Case, obs *c18Obs) *c18Judgement {
 				}
 				break
 			}
-			if a.B != c18BOK {
+			if a.B != c18BOK && a.B != c18BOKPushNeg {
 				j.Failures++
 			}
 			// buffer accounting: chosen sizes make the message-prefix convention irrelevant
@@ -1149,6 +1167,9 @@ func c18Judge(c c18Case, obs *c18Obs) *c18Judgement {
 		}
 		if nonTransparent+1 > c.Cfg.effMax() {
 			fail("C18", "too-many-attempts", "rpc %d made %d non-transparent attempts, effective maximum is %d", ri, nonTransparent+1, c.Cfg.effMax())
+		}
+		if m.tokens != nil {
+			j.Tokens = append(j.Tokens, m.tokens.RatString())
 		}
 		j.MaxReached = max(j.MaxReached, len(ro.Attempts))
 		j.Decisions = append(j.Decisions, strings.Join(kinds, " ")+" => "+ro.Final)
